@@ -9,7 +9,7 @@ RULE = ("(A) MC_Array: the Array machine as a state graph - Arrays of 2/3-bit in
         "trailing bits) x every list operation (set/del item, insert, pop, append, reverse, slice deletion and assignment with "
         "steps; indices -(N+1)..N+1; fitting and non-fitting values): decoding the new data equals the Python-list result on the "
         "decoded old items, trailing bits are untouched by item get/set/delete/insert/pop, a raising operation changes nothing "
-        "(quick: 52k states / 8M transitions; thorough: 377k / 65M). (C) seeded random programs over 36 dtypes (uint/int 1..65 "
+        "(quick: 52k states / 8M transitions; thorough: 377k / 65M). (B) behaviours of that machine (ArraySim.tla, tlc -simulate: an initial Array and 8 list operations with all their arguments) replayed on the real Array. (C) seeded random programs over 36 dtypes (uint/int 1..65 "
         "bits, be/le/ne, hex, bin, oct, bool, float16/32/64, floatle, bfloat, seven 8/6/4-bit formats, mxint, bytesN, bits) built "
         "from list/tuple/iterator/extend with and without trailing bits: len, itemsize, indexing, slicing, item and slice "
         "assignment (extended slices, wrong sizes, non-fitting values), deletion, append, extend, insert, pop, reverse, count, "
@@ -25,6 +25,8 @@ def run(chk):
     with ThreadPoolExecutor(max_workers=1) as ex:
         mc = ex.submit(chk.mc, 'MC_Array.tla', 'MC_Array.cfg' if thorough else 'MC_Array_quick.cfg', workers=8)
         k = 5 if thorough else 1
+        from . import common
+        common.run_array_behaviours(chk, num=400 if thorough else 60, procs=4)
         chk.queue([arrayprogs.array_program(rng) for _ in range(2500 * k)], 'random-array-list')
         chk.queue([arrayprogs.array_op_program(rng) for _ in range(1200 * k)], 'random-array-operators')
         chk.queue([arrayprogs.array_struct_program(rng) for _ in range(500 * k)], 'random-array-struct')
